@@ -8,6 +8,8 @@ GAS
 METRIC
 START
  1 'JAN' 2020 /
+NETWORK
+ 5 5 /
 WELLDIMS
  8 8 4 8 /
 UDQDIMS
@@ -74,6 +76,13 @@ MISC = {
  "MESSAGES": ("global", ["MESSAGES\n 100 /\n", "MESSAGES\n 2* 50 /\n"]),
  "DRSDTR":   ("global", ["DRSDTR\n 0.01 /\n", "DRSDTR\n 0.02 /\n"]),
  "MULTPV":   ("global", ["MULTPV\n 18*1.5 /\n", "MULTPV\n 18*0.75 /\n"]),
+ "BRANPROP": ("group", ["BRANPROP\n %s FIELD 9999 /\n/\nNODEPROP\n FIELD 50 /\n/\n", "BRANPROP\n %s FIELD 1 /\n/\nNODEPROP\n FIELD 60 NO YES /\n/\n"]),
+ "GCONPRDG": ("group", ["GCONPROD\n %s ORAT 500 3* RATE /\n/\n", "GCONPROD\n %s LRAT 1* 1* 1* 800 RATE /\n/\n"]),
+ "WDFACCOR": ("well",  ["WDFACCOR\n %s 1e-5 0 0 /\n/\n", "WDFACCOR\n %s 2e-5 0.1 0 /\n/\n"]),
+ "UDQDEF":   ("global", ["UDQ\n DEFINE FU2 FOPR * 2 /\n/\n", "UDQ\n DEFINE FU2 FWPR + 1 /\n UPDATE FU2 OFF /\n/\n"]),
+ "UDQDEFW":  ("global", ["UDQ\n DEFINE WU2 WOPR + 1 /\n UNITS WU2 SM3/DAY /\n/\n", "UDQ\n DEFINE WU2 WWPR * 3 /\n/\n"]),
+ "VFPPROD":  ("global", ["VFPPROD\n 1 2000 OIL WCT GOR THP ' ' 1* BHP /\n 100 500 /\n 10 50 /\n 0.1 0.5 /\n 100 200 /\n 0 /\n 1 1 1 1 100 120 /\n 1 2 1 1 110 130 /\n 2 1 1 1 105 125 /\n 2 2 1 1 115 135 /\n 1 1 2 1 100 120 /\n 1 2 2 1 110 130 /\n 2 1 2 1 105 125 /\n 2 2 2 1 115 135 /\n", "VFPPROD\n 2 2010 OIL WCT GOR THP ' ' 1* BHP /\n 100 500 /\n 10 50 /\n 0.1 0.5 /\n 100 200 /\n 0 /\n 1 1 1 1 90 140 /\n 1 2 1 1 110 130 /\n 2 1 1 1 105 125 /\n 2 2 1 1 115 135 /\n 1 1 2 1 90 140 /\n 1 2 2 1 110 130 /\n 2 1 2 1 105 125 /\n 2 2 2 1 115 135 /\n"]),
+ "SOURCE":   ("global", ["SOURCE\n 1 1 1 WATER 0.01 /\n/\n", "SOURCE\n 2 2 1 OIL 0.02 /\n/\n"]),
 }
 
 
@@ -82,7 +91,7 @@ def kw_text(k):
     if n == "MISC":
         kind, vs = MISC[k["name"]]
         t = vs[k["v"] - 1]
-        return t % (k["well"] if kind == "well" else k["group"]) if "%s" in t else t
+        return t.replace("%s", k["well"] if kind == "well" else k["group"]) if kind != "global" else t
     if n == "WELPI":
         return "WELPI\n %s %d /\n/\n" % (k["well"], k["v"])
     if n == "WTEST":
